@@ -546,82 +546,345 @@ def run_vqe(ck, n_cases):
                              {"kind": "vqe", "case": c}, found_input=False)
 
 
+def state_expectations(v, mol, params, mapping, utd, spin):
+    """<H>, <N_alpha>, <N_beta>, <N_alpha(N_alpha-1)>, <N_alpha N_beta>, <N_beta(N_beta-1)> in the prepared state, from the
+    statevector with the plain-numpy Pauli evaluator (operators mapped with the ACTIVE-space spin, as VQESolver.build does)."""
+    from tangelo.toolboxes.operators import FermionOperator
+    from tangelo.toolboxes.qubit_mappings.mapping_transform import fermion_to_qubit_mapping, get_qubit_number
+    nso = mol.n_active_sos
+    nq = get_qubit_number(mapping, nso)
+    v.ansatz.update_var_params(params)
+    _, sv = v.backend.simulate(v.ansatz.circuit, return_statevector=True)
+    msb = qubit_msb_first(v.backend)
+    cache = {}
+    kw = dict(mapping=mapping, n_spinorbitals=nso, n_electrons=mol.n_active_electrons, up_then_down=utd, spin=spin)
+    fh = mol.fermionic_hamiltonian
+    out = {"e": op_expectation(fermion_to_qubit_mapping(fermion_operator=fh, **kw), sv, nq, msb, cache).real}
+    na_op, nb_op = FermionOperator(), FermionOperator()
+    for p in range(nso):
+        if p % 2 == 0:
+            na_op += FermionOperator(((p, 1), (p, 0)), 1.0)
+        else:
+            nb_op += FermionOperator(((p, 1), (p, 0)), 1.0)
+    qa = fermion_to_qubit_mapping(fermion_operator=na_op, **kw)
+    qb = fermion_to_qubit_mapping(fermion_operator=nb_op, **kw)
+    ex = lambda q: op_expectation(q, sv, nq, msb, cache).real
+    out["na"], out["nb"] = ex(qa), ex(qb)
+    out["naa"] = ex(qa * qa) - out["na"]
+    out["nbb"] = ex(qb * qb) - out["nb"]
+    out["nab"] = ex(qa * qb)
+    out["n"] = out["na"] + out["nb"]
+    out["nn1"] = out["naa"] + out["nbb"] + 2 * out["nab"]
+    out["keys"] = set(fh.terms.keys())
+    return out
+
+
+def real_circuit(rng, nq, ref_gates=()):
+    """real-amplitude circuit (X, H, Z, CNOT, CZ, SWAP, RY) with variational RY gates; returns (circuit, n_params)"""
+    from tangelo.linq import Circuit, Gate
+    gates = list(ref_gates) if ref_gates else [Gate("X", q) for q in range(nq) if rng.random() < 0.5]
+    npar = 0
+    for q in range(nq):
+        gates.append(Gate("RY", q, parameter=0.1, is_variational=True))
+        npar += 1
+    for _ in range(rng.randint(2, 6)):
+        k = rng.random()
+        q = rng.randrange(nq)
+        q2 = rng.choice([x for x in range(nq) if x != q]) if nq > 1 else None
+        if k < 0.5 and q2 is not None:
+            gates.append(Gate(rng.choice(["CNOT", "CNOT", "CZ"]), q, control=q2))
+        elif k < 0.6:
+            gates.append(Gate(rng.choice(["H", "Z"]), q))
+        elif k < 0.7 and q2 is not None:
+            gates.append(Gate("SWAP", [q, q2]))
+        else:
+            gates.append(Gate("RY", q, parameter=0.1, is_variational=True))
+            npar += 1
+    return Circuit(gates, n_qubits=nq), npar
+
+
+def uhf_signature(mol, mapping, what):
+    """call site + input class of a get_rdm_uhf failure"""
+    nm = mol.n_active_mos
+    if nm[0] != nm[1]:
+        return "C13/get_rdm_uhf/unequal-active-spaces/%s" % what
+    if mapping.lower() == "scbk" and (mol.spin // 2) % 2 != (mol.active_spin // 2) % 2:
+        return "C13/get_rdm_uhf/scbk/spin-differs-from-active_spin/%s" % what
+    return None
+
+
+def check_get_rdm_uhf(ck, mol, v, params, mapping, utd, rep, label):
+    """all oracles for one (UHF molecule, state): returns nothing, records violations"""
+    tag = "%s/%s" % (mapping, "utd" if utd else "alt")
+    try:
+        d1, d2 = v.get_rdm_uhf(list(params))
+    except Exception as e:
+        ck.violation(uhf_signature(mol, mapping, "crash") or "C13/get_rdm_uhf/crash/%s/%s" % (type(e).__name__, tag),
+                     "%s: get_rdm_uhf raised %r" % (label, e), rep, found_input=True)
+        return
+    d1 = [np.array(x) for x in d1]
+    d2 = [np.array(x) for x in d2]
+    ex = state_expectations(v, mol, list(params), mapping, utd, mol.active_spin)
+    e_est = v.energy_estimation(list(params))
+    try:
+        e_rdm = mol.energy_from_rdms([x.copy() for x in d1], [x.copy() for x in d2])
+    except Exception as e:
+        ck.violation(uhf_signature(mol, mapping, "energy_from_rdms-raises") or "C13/get_rdm_uhf/energy_from_rdms-raises/%s" % tag,
+                     "%s: energy_from_rdms(get_rdm_uhf(theta)) raised %r (active orbitals per spin %s)" % (label, e, mol.n_active_mos), rep, found_input=True)
+        return
+    if abs(e_rdm - ex["e"]) > 1e-7 or abs(e_est - ex["e"]) > 1e-7:
+        ck.violation(uhf_signature(mol, mapping, "energy") or "C13/get_rdm_uhf/energy/%s" % tag,
+                     "%s: energy_from_rdms(get_rdm_uhf(theta)) = %.9f, energy_estimation(theta) = %.9f, <psi|H|psi> = %.9f (spin %d, active spin %d)"
+                     % (label, e_rdm, e_est, ex["e"], mol.spin, mol.active_spin), rep, found_input=True)
+    nso = mol.n_active_sos
+    all_num = all((((p, 1), (p, 0)) in ex["keys"]) for p in range(nso)
+                  if (p // 2) < mol.n_active_mos[p % 2])
+    if all_num:
+        for k, got in (("na", np.trace(d1[0])), ("nb", np.trace(d1[1]))):
+            if abs(got - ex[k]) > 1e-7:
+                ck.violation(uhf_signature(mol, mapping, "trace") or "C13/get_rdm_uhf/trace-%s/%s" % (k, tag),
+                             "%s: 1-RDM block trace %s = %.9f, expectation of the number operator %.9f" % (label, k, float(np.real(got)), ex[k]), rep, found_input=True)
+    if rep.get("real_molecule"):        # Coulomb-type integrals never vanish for a molecule: all [p,p,q,q] entries are measured
+        for k, got in (("naa", np.einsum("ppqq->", d2[0])), ("nab", np.einsum("ppqq->", d2[1])), ("nbb", np.einsum("ppqq->", d2[2]))):
+            if abs(got - ex[k]) > 1e-6:
+                ck.violation(uhf_signature(mol, mapping, "trace") or "C13/get_rdm_uhf/trace-%s/%s" % (k, tag),
+                             "%s: 2-RDM block trace %s = %.9f, expected %.9f" % (label, k, float(np.real(got)), ex[k]), rep, found_input=True)
+    herm = max(np.abs(d1[0] - d1[0].T).max(), np.abs(d1[1] - d1[1].T).max(), max(np.abs(x - x.transpose(1, 0, 3, 2)).max() for x in d2))
+    if herm > 1e-7 and rep.get("sym", True):
+        ck.violation(uhf_signature(mol, mapping, "hermiticity") or "C13/get_rdm_uhf/hermiticity/%s" % tag,
+                     "%s: spin blocks are not symmetric (real state): %.2e" % (label, herm), rep, found_input=True)
+
+
+def gen_uhf_case(rng, tier):
+    """open-shell UHF stub molecules; per-spin frozen lists with equal numbers of active orbitals (mostly), including
+    lists that freeze an occupied orbital in one channel and a virtual one in the other (active spin != spin) and, rarely,
+    unequal numbers of active orbitals"""
+    nact = rng.choice([2, 2, 3])
+    k = rng.choice([0, 0, 1])                 # frozen orbitals per spin
+    n = nact + k
+    na_el = rng.randint(1, n - 1) if n > 1 else 1
+    nb_el = rng.randint(max(0, na_el - 2), na_el - 1) if rng.random() < 0.75 else na_el
+    occa, occb = [1] * na_el + [0] * (n - na_el), [1] * nb_el + [0] * (n - nb_el)
+    frozen = None
+    kind = "no-frozen"
+    if k:
+        fa, fb = [rng.randrange(n)], [rng.randrange(n)]
+        kind = "equal-active"
+        if rng.random() < 0.12:
+            fb = []
+            kind = "unequal-active"
+        frozen = [fa, fb]
+    mapping = rng.choice(["jw", "jw", "bk", "jkmn", "scbk"])
+    utd = True if mapping == "scbk" else rng.random() < 0.5
+    hs = [CC.rand_h(rng, n, True), CC.rand_h(rng, n, True)]
+    eaa, ebb = CC.rand_eri(rng, n, True), CC.rand_eri(rng, n, True)
+    eab = CC.rand_eri(rng, n, False)
+    eab = eab + eab.transpose(1, 0, 2, 3)
+    eab = eab + eab.transpose(0, 1, 3, 2)
+    return {"n": n, "occa": occa, "occb": occb, "spin": na_el - nb_el, "frozen": frozen, "fkind": kind, "mapping": mapping, "utd": utd,
+            "core": rng.randint(-2, 2), "ha": hs[0].astype(int).tolist(), "hb": hs[1].astype(int).tolist(),
+            "eaa": eaa.astype(int).tolist(), "eab": eab.astype(int).tolist(), "ebb": ebb.astype(int).tolist(), "seed": rng.randrange(1 << 30)}
+
+
+def run_uhf_case(ck, c):
+    import random
+    from tangelo.algorithms.variational import VQESolver
+    from tangelo.toolboxes.qubit_mappings.mapping_transform import get_qubit_number
+    gs = [CC.chem_to_phys(np.asarray(c[k], dtype=float)) for k in ("eaa", "eab", "ebb")]
+    hs = [np.asarray(c["ha"], dtype=float), np.asarray(c["hb"], dtype=float)]
+    try:
+        mol = CC.stub_molecule([c["occa"], c["occb"]], c["spin"], c["frozen"], c["core"], hs, gs, uhf=True)
+    except (ValueError, TypeError, NotImplementedError):
+        return None
+    r = random.Random(c["seed"])
+    nq = get_qubit_number(c["mapping"], mol.n_active_sos)
+    circ, npar = real_circuit(r, nq)
+    v = VQESolver({"molecule": mol, "ansatz": circ, "qubit_mapping": c["mapping"], "up_then_down": c["utd"]})
+    v.build()
+    params = [r.uniform(-2.5, 2.5) for _ in range(npar)]
+    check_get_rdm_uhf(ck, mol, v, params, c["mapping"], c["utd"], {"kind": "vqe-uhf", "case": c}, "stub UHF occa=%s occb=%s frozen=%s %s" % (
+        c["occa"], c["occb"], c["frozen"], c["mapping"]))
+    return mol
+
+
+def run_vqe_uhf(ck, n_cases):
+    ck.stream("get_rdm_uhf", "VQESolver.get_rdm_uhf on open-shell UHF stub molecules (2-3 active orbitals per spin, different alpha / beta integrals, "
+              "per-spin frozen lists incl. occupied-in-one-channel / virtual-in-the-other), JW/BK/JKMN/scBK, real-amplitude circuits with "
+              "NON-ZERO random parameter vectors; oracle only: energy_from_rdms == energy_estimation == <psi|H|psi>, block traces == "
+              "<N_alpha>, <N_beta>, symmetry of the blocks; non-trivial = open shell (n_alpha != n_beta) or frozen orbitals")
+    forced = [   # active spin differs from spin (frozen: alpha occupied / beta virtual), scBK and JW; unequal active spaces
+        {"occa": [1, 1, 1, 0], "occb": [1, 0, 0, 0], "frozen": [[0], [3]], "mapping": "scbk", "utd": True, "fkind": "equal-active"},
+        {"occa": [1, 1, 1, 0], "occb": [1, 0, 0, 0], "frozen": [[0], [3]], "mapping": "jw", "utd": False, "fkind": "equal-active"},
+        {"occa": [1, 1, 0], "occb": [1, 0, 0], "frozen": [[0], []], "mapping": "jw", "utd": False, "fkind": "unequal-active"},
+        {"occa": [1, 1, 0], "occb": [1, 0, 0], "frozen": None, "mapping": "jw", "utd": True, "fkind": "no-frozen"},
+        {"occa": [1, 1, 0], "occb": [1, 0, 0], "frozen": None, "mapping": "bk", "utd": False, "fkind": "no-frozen"},
+    ]
+    for k in range(n_cases):
+        c = gen_uhf_case(ck.rng, ck.tier)
+        if k < len(forced):
+            f = forced[k]
+            n = len(f["occa"])
+            c = gen_uhf_case(ck.rng, ck.tier)
+            while c["n"] != n:
+                c = gen_uhf_case(ck.rng, ck.tier)
+            c.update(f)
+            c["spin"] = sum(f["occa"]) - sum(f["occb"])
+        try:
+            mol = run_uhf_case(ck, c)
+        except Exception as e:
+            ck.violation("C13/get_rdm_uhf/harness/%s" % type(e).__name__, "case could not be evaluated: %r" % e, {"kind": "vqe-uhf", "case": c}, found_input=False)
+            continue
+        key = json.dumps(c, sort_keys=True)
+        if mol is None:
+            ck.case("get_rdm_uhf", key, nontrivial=False, tags=["molecule-rejected"])
+            continue
+        ck.case("get_rdm_uhf", key, nontrivial=(c["spin"] != 0 or bool(c["frozen"])),
+                sample={k2: c[k2] for k2 in ("occa", "occb", "frozen", "mapping", "utd")},
+                tags=[c["mapping"], c["fkind"], "open" if c["spin"] else "closed", "active_spin!=spin" if mol.active_spin != mol.spin else "active_spin==spin"])
+
+
 # ------------------------------------------------------------------------------------------ PySCF support
+def rdm_checks_spin_summed(ck, sig, name, rep, mol, e_solver, d1, d2, tol_e, check_energy=True):
+    """energy / traces / symmetries of spin-summed (restricted) density matrices: D2[p,q,r,s] = <p+ r+ s q>"""
+    d1, d2 = np.array(d1), np.array(d2)
+    n = mol.n_active_electrons
+    if d1.shape[0] != mol.n_active_mos:
+        ck.notes.setdefault("pyscf_shape_notes", []).append("%s: rdm shape %s, active mos %s" % (name, d1.shape, mol.n_active_mos))
+        return
+    er = mol.energy_from_rdms(d1.copy(), d2.copy())
+    if check_energy and abs(er - e_solver) > tol_e:
+        ck.violation(sig + "/energy", "%s: energy_from_rdms %.9f, solver energy %.9f" % (name, er, e_solver), rep, found_input=True)
+    if abs(np.trace(d1) - n) > 1e-6:
+        ck.violation(sig + "/trace-1rdm", "%s: 1-RDM trace %.9f, active electrons %d" % (name, np.trace(d1).real, n), rep, found_input=True)
+    t2 = np.einsum("ppqq->", d2)
+    # (the MP2 2-RDM is a second-order quantity and is not normalised to N(N-1): only demanded of FCI / CCSD / VQE)
+    if check_energy and abs(t2 - n * (n - 1)) > 1e-5:
+        ck.violation(sig + "/trace-2rdm", "%s: 2-RDM trace sum_pq D2[p,p,q,q] = %.9f, N(N-1) = %d" % (name, t2.real, n * (n - 1)), rep, found_input=True)
+    if np.abs(d1 - d1.T.conj()).max() > 1e-6 or np.abs(d2 - d2.conj().transpose(1, 0, 3, 2)).max() > 1e-6:
+        ck.violation(sig + "/hermiticity", "%s: RDMs not Hermitian" % name, rep, found_input=True)
+    if np.abs(d2 - d2.transpose(2, 3, 0, 1)).max() > 1e-6:
+        # not demanded by the property (energy, traces and Hermiticity are): CCSD/ROHF returns aa + 2*ab + bb instead of
+        # aa + ab + ba + bb, which is not symmetric under exchange of the two electron pairs; recorded, not reported
+        ck.notes.setdefault("pair_symmetry_notes", []).append("%s: max |D2[pqrs] - D2[rspq]| = %.3e" % (name, np.abs(d2 - d2.transpose(2, 3, 0, 1)).max()))
+
+
+def rdm_checks_uhf(ck, sig, name, rep, mol, e_solver, d1, d2, tol_e, expect=None, check_energy=True):
+    """spin-resolved (UHF) density matrices (D1a, D1b), (D2aa, D2ab, D2bb); expect: optional dict of expectation values
+    {na, nb, naa, nab, nbb} (defaults: the integer electron numbers of the active space)"""
+    d1 = [np.array(x) for x in d1]
+    d2 = [np.array(x) for x in d2]
+    na, nb = mol.n_active_ab_electrons
+    ex = expect or {"na": na, "nb": nb, "naa": na * (na - 1), "nab": na * nb, "nbb": nb * (nb - 1)}
+    er = mol.energy_from_rdms([x.copy() for x in d1], [x.copy() for x in d2])
+    if check_energy and abs(er - e_solver) > tol_e:
+        ck.violation(sig + "/energy", "%s: energy_from_rdms %.9f, solver energy %.9f" % (name, er, e_solver), rep, found_input=True)
+    got = {"na": np.trace(d1[0]), "nb": np.trace(d1[1]), "naa": np.einsum("ppqq->", d2[0]), "nab": np.einsum("ppqq->", d2[1]),
+           "nbb": np.einsum("ppqq->", d2[2])}
+    for k in ("na", "nb", "naa", "nab", "nbb"):
+        if k in ex and abs(got[k] - ex[k]) > 1e-5:
+            ck.violation(sig + "/trace-%s" % k, "%s: block trace %s = %.9f, expected %.9f" % (name, k, float(np.real(got[k])), ex[k]), rep, found_input=True)
+    herm = max(np.abs(d1[0] - d1[0].T.conj()).max(), np.abs(d1[1] - d1[1].T.conj()).max(),
+               max(np.abs(x - x.conj().transpose(1, 0, 3, 2)).max() for x in d2))
+    if herm > 1e-6:
+        ck.violation(sig + "/hermiticity", "%s: RDM blocks not Hermitian (%.2e)" % (name, herm), rep, found_input=True)
+    if max(np.abs(d2[0] - d2[0].transpose(2, 3, 0, 1)).max(), np.abs(d2[2] - d2[2].transpose(2, 3, 0, 1)).max()) > 1e-6:
+        ck.violation(sig + "/pair-symmetry", "%s: same-spin blocks violate D2[p,q,r,s] = D2[r,s,p,q]" % name, rep, found_input=True)
+
+
 def run_pyscf_support(ck):
+    """classical solvers x references the property quantifies over: FCI, CCSD, MP2 (where RDMs are offered) x
+    {RHF, ROHF open shell (doublet, triplet), UHF}; tiny hydrogen systems."""
     from tangelo.toolboxes.molecular_computation.molecule import SecondQuantizedMolecule
     from tangelo.algorithms.classical.fci_solver import FCISolver
-    ck.stream("pyscf-support", "SUPPORT (numerical, not proof): PySCF FCI (quick) and CCSD / MP2 (thorough) density matrices on small "
-              "hydrogen systems: energy_from_rdms vs solver energy, trace vs active electrons, Hermiticity (tolerance 1e-6); "
-              "non-trivial = correlated state")
+    from tangelo.algorithms.classical.ccsd_solver import CCSDSolver
+    from tangelo.algorithms.classical.mp2_solver import MP2Solver
+    ck.stream("pyscf-support", "SUPPORT (numerical, not proof): PySCF FCI / CCSD / MP2 density matrices x {RHF, ROHF doublet/triplet, UHF} on small "
+              "hydrogen systems with and without frozen orbitals: energy_from_rdms vs solver energy (FCI 1e-6, CCSD 5e-5), 1-RDM trace N, "
+              "2-RDM trace N(N-1) (per spin block for UHF: na(na-1), na*nb, nb(nb-1)), Hermiticity, pair symmetry; non-trivial = open shell or frozen")
     def chain(n, d):
         return [("H", (0., 0., d * i)) for i in range(n)]
-    mols = [("H2", chain(2, 0.8), 0, 0, None), ("H4-frozen[0]", chain(4, 0.9), 0, 0, [0]), ("H3-doublet", chain(3, 0.95), 0, 1, None)]
+    # (name, xyz, q, spin, frozen, uhf)
+    mols = [("H2-RHF", chain(2, 0.8), 0, 0, None, False), ("H4-RHF-frozen[0]", chain(4, 0.9), 0, 0, [0], False),
+            ("H3-ROHF-doublet", chain(3, 0.95), 0, 1, None, False), ("H4-ROHF-triplet", chain(4, 0.9), 0, 2, None, False),
+            ("H4+-ROHF-doublet-frozen[3]", chain(4, 0.9), 1, 1, [3], False),
+            ("H3-UHF-doublet", chain(3, 0.95), 0, 1, None, True), ("H4-UHF-triplet-frozen[[3],[3]]", chain(4, 0.9), 0, 2, [[3], [3]], True)]
     if ck.tier == "thorough":
-        for k in range(10):
-            n = ck.rng.choice([2, 4, 4, 3])
+        for k in range(12):
+            n = ck.rng.choice([2, 3, 4, 4])
             d = ck.rng.uniform(0.65, 1.5)
-            spin = n % 2
+            q = ck.rng.choice([0, 0, 1]) if n >= 3 else 0
+            nel = n - q
+            spin = nel % 2 if (ck.rng.random() < 0.6 or nel < 3) else nel % 2 + 2
+            uhf = ck.rng.random() < 0.35
             fr = None
-            if n == 4 and ck.rng.random() < 0.6:
-                fr = sorted(ck.rng.sample(range(4), ck.rng.randint(1, 2)))
-            mols.append(("H%d-rand%d-frozen%s" % (n, k, fr), chain(n, d), 0, spin, fr))
-    for name, xyz, q, spin, fr in mols:
+            if n == 4 and ck.rng.random() < 0.5:
+                fr = [3] if ck.rng.random() < 0.6 else [2, 3]
+                if uhf:
+                    fr = [fr, fr]
+            mols.append(("H%d(q=%d,spin=%d,%s)-rand%d-frozen%s" % (n, q, spin, "UHF" if uhf else "R", k, fr), chain(n, d), q, spin, fr, uhf))
+    for name, xyz, q, spin, fr, uhf in mols:
         try:
-            mol = SecondQuantizedMolecule(xyz, q, spin, basis="sto-3g", frozen_orbitals=fr)
+            mol = SecondQuantizedMolecule(xyz, q, spin, basis="sto-3g", frozen_orbitals=fr, uhf=uhf)
         except Exception as e:
             ck.notes.setdefault("pyscf_build_failures", []).append("%s: %r" % (name, e))
             continue
-        solvers = [("fci", FCISolver)]
-        if ck.tier == "thorough":
-            from tangelo.algorithms.classical.ccsd_solver import CCSDSolver
-            from tangelo.algorithms.classical.mp2_solver import MP2Solver
-            solvers.append(("ccsd", CCSDSolver))
-            if fr is None and spin == 0:
-                solvers.append(("mp2", MP2Solver))
+        if not getattr(mol.mean_field, "converged", True):
+            ck.notes.setdefault("pyscf_unconverged", []).append(name)
+            continue
+        solvers = [("ccsd", CCSDSolver)]
+        if not uhf:
+            solvers.insert(0, ("fci", FCISolver))
+        if fr is None and (ck.tier == "thorough" or spin == 0):
+            solvers.append(("mp2", MP2Solver))
+        ref = "uhf" if uhf else ("rohf-spin%d" % spin if spin else "rhf")
         for sname, cls in solvers:
             try:
                 s = cls(mol)
                 e = s.simulate()
                 d1, d2 = s.get_rdm()
-                d1, d2 = np.array(d1), np.array(d2)
             except Exception as ex:
-                ck.notes.setdefault("pyscf_solver_errors", []).append("%s/%s: %r" % (name, sname, ex))
+                ck.notes.setdefault("pyscf_solver_errors", []).append("%s/%s: %r" % (name, sname, str(ex)[:120]))
                 continue
-            ck.case("pyscf-support", "%s/%s" % (name, sname), nontrivial=True, sample={"molecule": name, "solver": sname, "energy": float(e)},
-                    tags=[sname, "frozen" if fr else "no-frozen", "open" if spin else "closed"])
-            rep = {"kind": "pyscf", "molecule": name, "xyz": xyz, "q": q, "spin": spin, "frozen": fr, "solver": sname}
-            if d1.shape[0] != mol.n_active_mos:
-                ck.notes.setdefault("pyscf_shape_notes", []).append("%s/%s: rdm shape %s, active mos %s" % (name, sname, d1.shape, mol.n_active_mos))
-                continue
-            er = mol.energy_from_rdms(d1.copy(), d2.copy())
+            ck.case("pyscf-support", "%s/%s" % (name, sname), nontrivial=bool(spin or fr or uhf), sample={"molecule": name, "solver": sname, "energy": float(e)},
+                    tags=[sname, ref, "frozen" if fr else "no-frozen"])
+            rep = {"kind": "pyscf", "molecule": name, "xyz": [[a, list(x)] for a, x in xyz], "q": q, "spin": spin, "frozen": fr, "uhf": uhf, "solver": sname}
+            sig = "C13/pyscf/%s/%s" % (sname, ref)
             tol = 1e-6 if sname == "fci" else 5e-5
-            if sname != "mp2" and abs(er - e) > tol:
-                ck.violation("C13/pyscf/%s/energy" % sname, "%s: energy_from_rdms %.9f, solver energy %.9f" % (name, er, e), rep, found_input=True)
-            if abs(np.trace(d1) - mol.n_active_electrons) > 1e-6:
-                ck.violation("C13/pyscf/%s/trace" % sname, "%s: trace %.9f, active electrons %d" % (name, np.trace(d1), mol.n_active_electrons), rep, found_input=True)
-            if np.abs(d1 - d1.T.conj()).max() > 1e-6:
-                ck.violation("C13/pyscf/%s/hermiticity" % sname, "%s: 1-RDM not Hermitian" % name, rep, found_input=True)
+            try:
+                if uhf:
+                    rdm_checks_uhf(ck, sig, name, rep, mol, e, d1, d2, tol, check_energy=(sname != "mp2"))
+                else:
+                    rdm_checks_spin_summed(ck, sig, name, rep, mol, e, d1, d2, tol, check_energy=(sname != "mp2"))
+            except Exception as ex:
+                ck.notes.setdefault("pyscf_check_errors", []).append("%s/%s: %r" % (name, sname, str(ex)[:160]))
 
 
 def run_pyscf_get_rdm(ck):
-    """SUPPORT on real molecules: VQESolver.get_rdm in the encoded reference state (all variational parameters zero) of
-    triplet / quartet / doublet / singlet ROHF molecules: energy_from_rdms == mean-field energy == <psi|H|psi>,
-    trace == active electrons, Hermiticity; every encoding, both orderings."""
+    """SUPPORT on real molecules: VQESolver.get_rdm (ROHF / RHF) and get_rdm_uhf (UHF) in the encoded reference state (zero
+    parameters: energy == mean-field energy) AND for a non-zero random parameter vector (energy == energy_estimation ==
+    <psi|H|psi>, traces == <N>, <N(N-1)>, per spin block for UHF), every encoding."""
+    import random
     from tangelo.toolboxes.molecular_computation.molecule import SecondQuantizedMolecule
-    ck.stream("pyscf-get_rdm", "SUPPORT (numerical): real PySCF ROHF molecules (H4 triplet, H3 quartet, H4+ quartet, H3 doublet, H2) sto-3g, "
-              "VQESolver.get_rdm in the encoded reference state with zero parameters, JW/BK/scBK/JKMN; energy vs mean-field energy "
-              "(1e-7), trace vs active electrons, Hermiticity; non-trivial = spin >= 2")
+    ck.stream("pyscf-get_rdm", "SUPPORT (numerical): real PySCF molecules sto-3g (ROHF H4 triplet, H3 quartet, H2; UHF H3 doublet, H4 triplet with "
+              "per-spin frozen lists; thorough: more), VQESolver.get_rdm / get_rdm_uhf in the encoded reference state (zero parameters; energy vs "
+              "mean-field energy 1e-7) and for a NON-ZERO random parameter vector (energy vs energy_estimation and <psi|H|psi>, traces vs "
+              "<N>, <N(N-1)> / per block), Hermiticity; JW/BK/scBK/JKMN; non-trivial = spin >= 1 or UHF")
     def chain(n, d):
         return [("H", (0., 0., d * i)) for i in range(n)]
-    mols = [("H4-triplet", chain(4, 0.9), 0, 2, None), ("H3-quartet", chain(3, 1.0), 0, 3, None), ("H2-singlet", chain(2, 0.8), 0, 0, None)]
+    # (name, xyz, q, spin, frozen, uhf)
+    mols = [("H4-triplet", chain(4, 0.9), 0, 2, None, False), ("H3-quartet", chain(3, 1.0), 0, 3, None, False), ("H2-singlet", chain(2, 0.8), 0, 0, None, False),
+            ("H3-UHF-doublet", chain(3, 0.95), 0, 1, None, True),
+            ("H4-UHF-triplet-frozen[[0],[3]]", chain(4, 0.9), 0, 2, [[0], [3]], True)]
     if ck.tier == "thorough":
-        mols += [("H4+-quartet", chain(4, 1.0), 1, 3, None), ("H3-doublet", chain(3, 0.95), 0, 1, None),
-                 ("H4-triplet-frozen[0]", chain(4, 0.85), 0, 2, [0]), ("H4-singlet-frozen[3]", chain(4, 0.9), 0, 0, [3])]
+        mols += [("H4+-quartet", chain(4, 1.0), 1, 3, None, False), ("H3-doublet", chain(3, 0.95), 0, 1, None, False),
+                 ("H4-triplet-frozen[0]", chain(4, 0.85), 0, 2, [0], False), ("H4-singlet-frozen[3]", chain(4, 0.9), 0, 0, [3], False),
+                 ("H4-UHF-triplet-frozen[[3],[3]]", chain(4, 0.9), 0, 2, [[3], [3]], True), ("H4+-UHF-doublet-frozen[[3],[3]]", chain(4, 0.95), 1, 1, [[3], [3]], True),
+                 ("H3-UHF-doublet-frozen[[0],[]]", chain(3, 0.95), 0, 1, [[0], []], True), ("H2+-UHF", chain(2, 1.0), 1, 1, None, True)]
     maps = [("scbk", True), ("jw", False)] if ck.tier == "quick" else \
            [("scbk", True), ("jw", False), ("jw", True), ("bk", False), ("bk", True), ("jkmn", False), ("jkmn", True)]
-    for name, xyz, q, spin, fr in mols:
+    for name, xyz, q, spin, fr, uhf in mols:
         try:
-            mol = SecondQuantizedMolecule(xyz, q, spin, basis="sto-3g", frozen_orbitals=fr)
+            mol = SecondQuantizedMolecule(xyz, q, spin, basis="sto-3g", frozen_orbitals=fr, uhf=uhf)
         except Exception as e:
             ck.notes.setdefault("pyscf_build_failures", []).append("%s: %r" % (name, e))
             continue
@@ -629,15 +892,18 @@ def run_pyscf_get_rdm(ck):
             ck.notes.setdefault("pyscf_unconverged", []).append(name)
             continue
         for mapping, utd in maps:
-            case = {"molecule": name, "xyz": [[a, list(x)] for a, x in xyz], "q": q, "spin": spin, "frozen": fr, "mapping": mapping, "utd": utd}
-            ck.case("pyscf-get_rdm", json.dumps(case), nontrivial=spin >= 2, sample=case, tags=[mapping, "spin=%d" % spin])
+            case = {"molecule": name, "xyz": [[a, list(x)] for a, x in xyz], "q": q, "spin": spin, "frozen": fr, "uhf": uhf, "mapping": mapping, "utd": utd}
+            ck.case("pyscf-get_rdm", json.dumps(case), nontrivial=(spin >= 1 or uhf), sample=case, tags=[mapping, "spin=%d" % spin, "uhf" if uhf else "restricted"])
+            rep = {"kind": "pyscf-get_rdm", "case": case, "real_molecule": True}
+            rr = random.Random(ck.rng.randrange(1 << 30))
             try:
+                if uhf:
+                    real_get_rdm_uhf(ck, mol, mapping, utd, rep, name, rr)
+                    continue
                 r = real_get_rdm(mol, mapping, utd)
             except Exception as e:
-                ck.violation("C13/pyscf/get_rdm/crash/%s/spin%d" % (mapping, spin), "%s: get_rdm raised %r" % (name, e),
-                             {"kind": "pyscf-get_rdm", "case": case}, found_input=True)
+                ck.violation("C13/pyscf/get_rdm/crash/%s/spin%d" % (mapping, spin), "%s: get_rdm raised %r" % (name, e), rep, found_input=True)
                 continue
-            rep = {"kind": "pyscf-get_rdm", "case": case}
             if abs(r["e_rdm"] - mol.mf_energy) > 1e-7 or abs(r["e_est"] - mol.mf_energy) > 1e-7:
                 ck.violation("C13/pyscf/get_rdm/energy/%s/spin%d" % (mapping, spin), "%s: reference state: energy_from_rdms(get_rdm(0)) = %.9f, "
                              "energy_estimation(0) = %.9f, mean-field energy %.9f" % (name, r["e_rdm"], r["e_est"], mol.mf_energy), rep, found_input=True)
@@ -646,6 +912,47 @@ def run_pyscf_get_rdm(ck):
                              % (name, mol.n_active_electrons, r["trace"]), rep, found_input=True)
             if r["herm"] > 1e-7:
                 ck.violation("C13/pyscf/get_rdm/hermiticity/%s/spin%d" % (mapping, spin), "%s: RDMs not Hermitian (%.2e)" % (name, r["herm"]), rep, found_input=True)
+            # non-zero parameter vector
+            try:
+                v, nq = r["solver"], r["nq"]
+                params = [rr.uniform(-2.5, 2.5) for _ in range(nq)]
+                case["params"] = params
+                d1, d2 = v.get_rdm(list(params))
+                d1, d2 = np.array(d1), np.array(d2)
+                ex = state_expectations(v, mol, params, mapping, utd, mol.active_spin)
+                e_rdm, e_est = mol.energy_from_rdms(d1, d2), v.energy_estimation(list(params))
+                if abs(e_rdm - ex["e"]) > 1e-7 or abs(e_est - ex["e"]) > 1e-7:
+                    ck.violation("C13/pyscf/get_rdm/energy-nonzero-params/%s/spin%d" % (mapping, spin), "%s: energy_from_rdms(get_rdm(theta)) = %.9f, "
+                                 "energy_estimation(theta) = %.9f, <psi|H|psi> = %.9f" % (name, e_rdm, e_est, ex["e"]), rep, found_input=True)
+                if abs(np.trace(d1) - ex["n"]) > 1e-6 or abs(np.einsum("ppqq->", d2) - ex["nn1"]) > 1e-6:
+                    ck.violation("C13/pyscf/get_rdm/trace-nonzero-params/%s/spin%d" % (mapping, spin), "%s: traces %.6f / %.6f, <N> = %.6f, <N(N-1)> = %.6f"
+                                 % (name, np.trace(d1).real, np.einsum("ppqq->", d2).real, ex["n"], ex["nn1"]), rep, found_input=True)
+                if max(np.abs(d1 - d1.conj().T).max(), np.abs(d2 - d2.conj().transpose(1, 0, 3, 2)).max()) > 1e-7:
+                    ck.violation("C13/pyscf/get_rdm/hermiticity-nonzero-params/%s/spin%d" % (mapping, spin), "%s: RDMs not Hermitian" % name, rep, found_input=True)
+            except Exception as e:
+                ck.violation("C13/pyscf/get_rdm/crash-nonzero-params/%s/spin%d" % (mapping, spin), "%s: %r" % (name, e), rep, found_input=True)
+
+
+def real_get_rdm_uhf(ck, mol, mapping, utd, rep, name, rr):
+    from tangelo.algorithms.variational import VQESolver
+    from tangelo.linq import Circuit, Gate
+    from tangelo.toolboxes.qubit_mappings.mapping_transform import get_qubit_number
+    from tangelo.toolboxes.qubit_mappings.statevector_mapping import get_reference_circuit
+    nso = mol.n_active_sos
+    nq = get_qubit_number(mapping, nso)
+    ref = list(get_reference_circuit(nso, mol.n_active_electrons, mapping, utd, mol.active_spin))
+    circ = Circuit(ref + [Gate("RY", q, parameter=0.1, is_variational=True) for q in range(nq)]
+                   + [Gate("CNOT", (q + 1) % nq, control=q) for q in range(nq - 1)]
+                   + [Gate("RY", q, parameter=0.1, is_variational=True) for q in range(nq)], n_qubits=nq)
+    v = VQESolver({"molecule": mol, "ansatz": circ, "qubit_mapping": mapping, "up_then_down": utd})
+    v.build()
+    zeros = [0.0] * (2 * nq)
+    # zero parameters: the CNOT ladder acts on the reference determinant, still a determinant but not the reference; use the
+    # generic oracles for both parameter vectors
+    check_get_rdm_uhf(ck, mol, v, zeros, mapping, utd, rep, name + " (zero parameters)")
+    params = [rr.uniform(-2.5, 2.5) for _ in range(2 * nq)]
+    rep["case"]["params"] = params
+    check_get_rdm_uhf(ck, mol, v, params, mapping, utd, rep, name + " (non-zero parameters)")
 
 
 def real_get_rdm(mol, mapping, utd):
@@ -663,7 +970,8 @@ def real_get_rdm(mol, mapping, utd):
     r1, r2 = v.get_rdm(zeros)
     r1, r2 = np.array(r1), np.array(r2)
     herm = max(np.abs(r1 - r1.conj().T).max(), np.abs(r2 - r2.conj().transpose(1, 0, 3, 2)).max())
-    return {"e_rdm": mol.energy_from_rdms(r1, r2), "e_est": v.energy_estimation(zeros), "trace": float(np.trace(r1).real), "herm": float(herm)}
+    return {"e_rdm": mol.energy_from_rdms(r1, r2), "e_est": v.energy_estimation(zeros), "trace": float(np.trace(r1).real), "herm": float(herm),
+            "solver": v, "nq": nq}
 
 
 # ------------------------------------------------------------------------------------------ main
@@ -716,6 +1024,7 @@ def run(ck):
                      ("padding", lambda: run_pad(ck, 110 if quick else 1500, alias[0])),
                      ("padding-uhf", lambda: run_pad_unrestricted(ck, 30 if quick else 400)),
                      ("get_rdm", lambda: run_vqe(ck, 64 if quick else 450)),
+                     ("get_rdm_uhf", lambda: run_vqe_uhf(ck, 30 if quick else 300)),
                      ("pyscf-get_rdm", lambda: run_pyscf_get_rdm(ck)),
                      ("pyscf-support", lambda: run_pyscf_support(ck))):
         t0 = _t.time()
@@ -756,11 +1065,48 @@ def replay(data):
         if c.get("aufbau", True) and c.get("sym", True):
             bad = bad or res["e_act"] != res["e_full"]
         return 1 if bad else 0
+    if r.get("kind") == "pyscf" and "solver" in r:
+        from tangelo.toolboxes.molecular_computation.molecule import SecondQuantizedMolecule
+        from tangelo.algorithms.classical import FCISolver, CCSDSolver, MP2Solver
+        mol = SecondQuantizedMolecule([(a, tuple(x)) for a, x in r["xyz"]], r["q"], r["spin"], basis="sto-3g", frozen_orbitals=r["frozen"], uhf=r.get("uhf", False))
+        sv = {"fci": FCISolver, "ccsd": CCSDSolver, "mp2": MP2Solver}[r["solver"]](mol)
+        e = sv.simulate()
+        d1, d2 = sv.get_rdm()
+        if r.get("uhf"):
+            er = mol.energy_from_rdms([np.array(x) for x in d1], [np.array(x) for x in d2])
+            tr2 = [float(np.einsum("ppqq->", np.array(x))) for x in d2]
+        else:
+            er = mol.energy_from_rdms(np.array(d1), np.array(d2))
+            tr2 = float(np.einsum("ppqq->", np.array(d2)))
+        n = mol.n_active_electrons
+        print("solver energy", e, "energy from RDMs", er, "2-RDM trace", tr2, "N(N-1)", n * (n - 1), "n_ab", mol.n_active_ab_electrons)
+        bad = (r["solver"] != "mp2" and abs(er - e) > 5e-5)
+        if not r.get("uhf"):
+            bad = bad or abs(tr2 - n * (n - 1)) > 1e-5
+        return 1 if bad else 0
+    if r.get("kind") in ("pyscf-get_rdm", "vqe-uhf") and (r["case"].get("uhf") or r.get("kind") == "vqe-uhf"):
+        import random
+        from harness.lib import Check
+        ck = Check.__new__(Check)
+        ck.violations, ck.notes = [], {}
+        ck.violation = lambda sig, desc, rep, found_input=True: ck.violations.append((sig, desc))
+        c = r["case"]
+        if r["kind"] == "vqe-uhf":
+            ck.rng = random.Random(0)
+            run_uhf_case(ck, c)
+        else:
+            from tangelo.toolboxes.molecular_computation.molecule import SecondQuantizedMolecule
+            mol = SecondQuantizedMolecule([(a, tuple(x)) for a, x in c["xyz"]], c["q"], c["spin"], basis="sto-3g", frozen_orbitals=c["frozen"], uhf=True)
+            real_get_rdm_uhf(ck, mol, c["mapping"], c["utd"], {"kind": "pyscf-get_rdm", "case": dict(c), "real_molecule": True}, c["molecule"], random.Random(1))
+        for sig, desc in ck.violations:
+            print("FINDING", sig, desc[:400])
+        return 1 if ck.violations else 0
     if r.get("kind") == "pyscf-get_rdm":
         from tangelo.toolboxes.molecular_computation.molecule import SecondQuantizedMolecule
         c = r["case"]
         mol = SecondQuantizedMolecule([(a, tuple(x)) for a, x in c["xyz"]], c["q"], c["spin"], basis="sto-3g", frozen_orbitals=c["frozen"])
         res = real_get_rdm(mol, c["mapping"], c["utd"])
+        res = {k: v for k, v in res.items() if k not in ("solver",)}
         print("mean-field energy", mol.mf_energy, res, "active electrons", mol.n_active_electrons)
         bad = abs(res["e_rdm"] - mol.mf_energy) > 1e-7 or abs(res["trace"] - mol.n_active_electrons) > 1e-7 or res["herm"] > 1e-7
         return 1 if bad else 0
